@@ -12,7 +12,7 @@
    pending events in the order the event set (CQueue.Spec, C01) returns them. *)
 From Coq Require Import List NArith Permutation.
 From DesVerif Require Import CQueue.Model CQueue.Spec Channel.Model Channel.Queue Channel.Trace Channel.Core
-  Channel.Account Channel.Timing Channel.Props Channel.Term Channel.Order Channel.Multi Channel.Project Channel.Links Channel.MTerm Channel.ModelCq Channel.OverCq Channel.OverCqProps.
+  Channel.Account Channel.Timing Channel.Props Channel.Term Channel.Order Channel.Multi Channel.Project Channel.Links Channel.MTerm Channel.ModelCq Channel.OverCq Channel.OverCqProps Channel.DrawModel Channel.Draw.
 Import ListNotations.
 Open Scope N_scope.
 
@@ -283,6 +283,19 @@ Theorem C07_multi_run_completes_cq : forall n t, n <> 0 -> t <> 0 -> forall txs 
 Proof. exact multi_run_completes_cq. Qed.
 Print Assumptions C07_multi_run_completes_cq.
 
+(* ---- the jitter draw of ChannelMetrics::calculate_duration (fix 4f31432), modelled exactly ----
+   [jit_of_word J w]: the generator returns the 64-bit word w; rand's StandardUniform keeps its top 53 bits,
+   u = (w >> 11) * 2^-53; the code computes (u * J as f64) as u64.  The harness calls the public function
+   with generators that return scripted words and compares the answer with this function; the range
+   statement of the property holds for EVERY word, not only for the draws a seeded run happens to see: *)
+Theorem C07_jitter_below_bound_for_every_draw : forall J w, 0 < J -> jit_of_word J w < J.
+Proof. exact jit_of_word_lt. Qed.
+Print Assumptions C07_jitter_below_bound_for_every_draw.
+
+Theorem C07_no_jitter_no_offset : forall w, jit_of_word 0 w = 0.
+Proof. exact jit_of_word_zero. Qed.
+Print Assumptions C07_no_jitter_no_offset.
+
 (* ---- non-vacuity: a script that queues, drains two zero-time messages in one Unbusy, drops on a
    full queue and delivers in order (2 Tbit/s: 64 B -> 0 ns, 1088 B -> 4 ns; latency 0) ---- *)
 Definition ex_tx (len : N) : N := if len =? 64 then 0 else 4.
@@ -318,4 +331,10 @@ Proof. vm_compute. intuition. Qed.
 Example C07_example_over_cqueue :
   cmlog (cmsteps own_instance (fun _ _ => 64000000) (fun _ => {| m_lat := 100000000; m_jit := 0; m_pol := PDrop |}) ex_mb 20
            (cminit ex_mb 3 7000000 (fun _ => []))) = mlog ex_mfinal.
+Proof. vm_compute. reflexivity. Qed.
+
+(* the largest draw under jitter values of the families a double rounding would push onto the bound *)
+Example C07_example_largest_draw :
+  map (fun J => jit_of_word J (2 ^ 64 - 1)) [2; 41; 1250; 5000; 10000; 80000; 2 ^ 52] =
+  [1; 40; 1249; 4999; 9999; 79999; 2 ^ 52 - 1].
 Proof. vm_compute. reflexivity. Qed.
